@@ -1,7 +1,8 @@
 import OxiVerif.Lemmas.C07
 /-!
 C07 helper lemmas, ASCII85: the reference encoder's groups (Spec/C07Codecs.lean `a85Enc`) through the
-model of `decode_ascii85_with_limit` (Model/C08.lean `a85Go`, `a85Fin`, `a85Value`).
+model of `decode_ascii85_with_limit` (Model/C08.lean `a85Go`, `a85Fin`, `a85Value` = the checked Horner
+sum of `ascii85_group_value`).
 
 All base-85 arithmetic is done on explicit quotients/remainders (`v = 85·q + r`), never by asking a
 decision procedure about `v / 52200625`.
@@ -9,37 +10,24 @@ decision procedure about `v / 52200625`.
 namespace OxiVerif.Flt
 open OxiVerif.Codec
 
-theorem pow85_vals : pow85 0 = 1 ∧ pow85 1 = 85 ∧ pow85 2 = 7225 ∧ pow85 3 = 614125 ∧ pow85 4 = 52200625 :=
-  ⟨rfl, rfl, rfl, rfl, rfl⟩
+theorem a85Horner_step (v c : Nat) (g : List Nat) (w : Nat) (hw : v * 85 + (c - 33) = w) (h : w < 4294967296) :
+    a85Horner v (c :: g) = a85Horner w g := by
+  simp only [a85Horner, hw, two32]
+  rw [if_neg (by omega)]
 
-theorem a85Sum_step (i s c : Nat) (g : List Nat) (t : Nat) (ht : (c - 33) * pow85 (4 - i) = t)
-    (h1 : t < 4294967296) (h2 : s + t < 4294967296) :
-    a85Sum i s (c :: g) = a85Sum (i + 1) (s + t) g := by
-  simp only [a85Sum, ht, two32]
-  rw [if_neg (by omega), if_neg (by omega)]
-
-/-- the checked u32 sum over five digits `e₀ … e₄` (as characters `eᵢ + 33`) whose base-85 value fits
-32 bits: no overflow panic, result = the value -/
+/-- `ascii85_group_value` over five digits `e₀ … e₄` (as characters `eᵢ + 33`) whose base-85 value fits
+32 bits: no overflow error, result = the value -/
 theorem a85Value_five (e0 e1 e2 e3 e4 : Nat)
     (h : 52200625 * e0 + 614125 * e1 + 7225 * e2 + 85 * e3 + e4 < 4294967296) :
     a85Value [e0 + 33, e1 + 33, e2 + 33, e3 + 33, e4 + 33] =
       .ok (52200625 * e0 + 614125 * e1 + 7225 * e2 + 85 * e3 + e4) := by
-  obtain ⟨p0, p1, p2, p3, p4⟩ := pow85_vals
-  have t0 : (e0 + 33 - 33) * pow85 (4 - 0) = 52200625 * e0 := by rw [Nat.add_sub_cancel, Nat.sub_zero, p4, Nat.mul_comm]
-  have t1 : (e1 + 33 - 33) * pow85 (4 - 1) = 614125 * e1 := by rw [Nat.add_sub_cancel, p3, Nat.mul_comm]
-  have t2 : (e2 + 33 - 33) * pow85 (4 - 2) = 7225 * e2 := by rw [Nat.add_sub_cancel, p2, Nat.mul_comm]
-  have t3 : (e3 + 33 - 33) * pow85 (4 - 3) = 85 * e3 := by rw [Nat.add_sub_cancel, p1, Nat.mul_comm]
-  have t4 : (e4 + 33 - 33) * pow85 (4 - 4) = e4 := by rw [Nat.add_sub_cancel, Nat.sub_self, p0, Nat.mul_one]
-  clear p0 p1 p2 p3 p4
-  generalize ha : 52200625 * e0 = A at *
-  generalize hb : 614125 * e1 = B at *
-  generalize hc : 7225 * e2 = C at *
-  generalize hd : 85 * e3 = D at *
   unfold a85Value
-  rw [a85Sum_step 0 0 _ _ A t0 (by omega) (by omega), a85Sum_step 1 _ _ _ B t1 (by omega) (by omega),
-    a85Sum_step 2 _ _ _ C t2 (by omega) (by omega), a85Sum_step 3 _ _ _ D t3 (by omega) (by omega),
-    a85Sum_step 4 _ _ _ e4 t4 (by omega) (by omega)]
-  simp only [a85Sum, Nat.zero_add]
+  rw [a85Horner_step 0 _ _ e0 (by omega) (by omega),
+    a85Horner_step e0 _ _ (85 * e0 + e1) (by omega) (by omega),
+    a85Horner_step _ _ _ (7225 * e0 + 85 * e1 + e2) (by omega) (by omega),
+    a85Horner_step _ _ _ (614125 * e0 + 7225 * e1 + 85 * e2 + e3) (by omega) (by omega),
+    a85Horner_step _ _ _ (52200625 * e0 + 614125 * e1 + 7225 * e2 + 85 * e3 + e4) (by omega) (by omega)]
+  rfl
 
 /-- base-85 decomposition of a 32-bit value: quotient chain `v = 85 q₁ + r₀`, `q₁ = 85 q₂ + r₁`, … -/
 theorem a85_decomp (v : Nat) (hv : v < 4294967296) :
